@@ -92,3 +92,18 @@ Example C13_two_panic_keys :
   fst (run c (h1 ++ EKey 0 2 1 :: EKey 0 2 0 :: h2)) <> fst (run c (h1 ++ h2)) /\
   map (fun o => length (midi o)) (snd (run c (h1 ++ EKey 0 2 1 :: EKey 0 2 0 :: h2))) = [129; 129; 0; 1]%nat.
 Proof. exact two_panic_keys. Qed.
+
+(* ---- the same at the PORT (Model/EndToEnd.v: any number of devices composed with the relay of C15, all interleavings,
+   any channel capacities - in particular the 8 slots of production, far fewer than the 129 messages of a burst): once
+   everything has drained, the port has received from device k exactly the stream of the history before the panic press,
+   the complete burst, what the continuation produces from the state before the press, and the clean-up. *)
+From HIDI Require Import Model.Relay Model.EndToEnd Proofs.EndToEndProofs.
+Theorem C13_at_the_port : forall ds port_cap out_cap s k c h1 sub sub' kk h2,
+  reachable (estep port_cap out_cap) (einit ds) s -> quiescent s ->
+  nth_error ds k = Some (c, h1 ++ EKey sub kk 1 :: EKey sub' kk 0 :: h2) ->
+  let s1 := fst (run c h1) in
+  panic_triggers c s1 kk -> ~ In kk (keys_down h1) ->
+  at_port s k = all_midi (snd (run c h1)) ++ panic_burst (channel s1) ++ all_midi (snd (run_from c s1 h2)) ++
+                snd (cleanup c (fst (run c (h1 ++ EKey sub kk 1 :: EKey sub' kk 0 :: h2)))).
+Proof. exact e2e_panic. Qed.
+Print Assumptions C13_at_the_port.
